@@ -5,6 +5,7 @@ sys.monitoring delay plans inherited by the forked writers and readers).
 """
 import multiprocessing
 import os
+import shutil
 import time
 import traceback
 
@@ -77,12 +78,40 @@ def _reader(st, ids, sh, ri, start, stop, max_reads, seed):
             pass
 
 
+def _late_user(st, sh, go, conn, t3):
+    """Forked before anything is stored, idle until the parent has flushed and stored again: then it looks at the storage
+    and stores one more text (a long-lived worker that is used again in the next round)."""
+    instr.reset_for_child("workerL")
+    try:
+        if not go.wait(60):
+            conn.send({"error": "never released"})
+            return
+
+        def safe(fn):
+            try:
+                return ["ok", fn()]
+            except Exception as e:
+                return ["exc", f"{type(e).__name__}: {e}"]
+        view = {"len": safe(lambda: len(st)), "contiguous": safe(lambda: st.is_contiguous()), "iter": safe(lambda: list(st)),
+                "read0": safe(lambda: st[0])}
+        view["store1"] = safe(lambda: st.__setitem__(1, t3))
+        view["len_after"] = safe(lambda: len(st))
+        try:
+            st.close()
+        except Exception:
+            pass
+        conn.send(view)
+    finally:
+        conn.close()
+
+
 def drive_storage(case, sh, state):
     from windpyutils.parallel.storage import TextFileStorage
     import random
     ctx = multiprocessing.get_context("fork")
     d = os.path.join(os.path.dirname(sh.logpath), "stor")
-    os.makedirs(d, exist_ok=True)
+    shutil.rmtree(d, ignore_errors=True)        # nothing of an earlier run in the same scratch directory
+    os.makedirs(d)
     state["phase"] = "setup"
     st = TextFileStorage(d, "storage", number_of_data=case.get("presize"))
     final = {}
@@ -93,6 +122,15 @@ def drive_storage(case, sh, state):
     start, stop = ctx.Event(), ctx.Event()
     procs = []
     first_phase = []
+    late = None
+    if case.get("late_user"):
+        go_late = ctx.Event()
+        a, b = ctx.Pipe(duplex=False)
+        t3 = text_for(case, 97, 1, 0)
+        lp = ctx.Process(target=_late_user, args=(st, sh, go_late, b, t3))
+        lp.start()
+        b.close()
+        late = (lp, a, go_late, t3)
     if case.get("parent_reads_before_fork") and len(case["writers"]) >= 2:
         # two phases: the first writer runs to completion, the parent reads everything it stored (and thereby opens its
         # read handles), and only then the remaining writers and the readers are forked - they inherit those handles
@@ -115,6 +153,22 @@ def drive_storage(case, sh, state):
     state["phase"] = "running"
     for _, p in procs:
         p.start()
+    raw = []
+    for ri in range(case.get("raw_fork_readers", 0)):
+        # a reader created with a plain os.fork() (pre-fork server style), not through multiprocessing
+        pid = os.fork()
+        if pid == 0:
+            code = 0
+            try:
+                # what a pre-fork server has to do for anything built on multiprocessing: proxies of manager objects must
+                # not share the parent's connection (multiprocessing does this for the children it starts itself)
+                multiprocessing.util._run_after_forkers()
+                _reader(st, universe, sh, 90 + ri, start, stop, case.get("max_reads", 300), case.get("seed", 0) * 17 + ri)
+            except BaseException:
+                code = 3
+            finally:
+                os._exit(code)
+        raw.append(pid)
     start.set()
     rng = random.Random(case.get("seed", 0))
     k = 0
@@ -131,7 +185,11 @@ def drive_storage(case, sh, state):
     for kind, p in procs:
         if kind == "r":
             p.join()
-    final["exitcodes"] = [p.exitcode for _, p in procs] + [p.exitcode for p in first_phase]
+    raw_codes = []
+    for pid in raw:
+        _, status = os.waitpid(pid, 0)
+        raw_codes.append(os.waitstatus_to_exitcode(status))
+    final["exitcodes"] = [p.exitcode for _, p in procs] + [p.exitcode for p in first_phase] + raw_codes
     # ---- quiescent point: everything that was stored is visible
     state["phase"] = "final_checks"
     sh.log("quiescent")
@@ -168,6 +226,16 @@ def drive_storage(case, sh, state):
     final["len_after_restore"] = safe(lambda: len(st))
     final["contiguous_after_restore"] = safe(lambda: st.is_contiguous())
     st.close()
+    if late:
+        state["phase"] = "late_user"
+        lp, a, go_late, t3 = late
+        go_late.set()
+        final["late_user_view"] = a.recv() if a.poll(60) else {"error": "no report"}
+        lp.join(30)
+        final["late_user_text"] = [t2, t3]
+        final["parent_view_after_late_user"] = {"len": safe(lambda: len(st)), "contiguous": safe(lambda: st.is_contiguous()),
+                                                "iter": safe(lambda: list(st)), "read1": safe(lambda: st[1])}
+        st.close()
     state.setdefault("notes", []).append({"storage_final": final})
 
 
@@ -294,6 +362,21 @@ def storage_findings(case, result):
                     fin.get("len_after_restore") != ["ok", 1] or fin.get("contiguous_after_restore") != ["ok", True]:
                 out.append(("store-after-flush-fails", f"after flush() + store of id 0: read {fin['read_back_after_flush'][0]}"
                             f", len {fin.get('len_after_restore')}, contiguous {fin.get('contiguous_after_restore')}"))
+        if "late_user_view" in fin and fin.get("store_after_flush", ["?"])[0] == "ok" and fin.get("flush", ["?"])[0] == "ok":
+            t2, t3 = fin["late_user_text"]
+            v = fin["late_user_view"]
+            want_v = {"len": ["ok", 1], "contiguous": ["ok", True], "iter": ["ok", [t2]], "read0": ["ok", t2], "store1": ["ok", None],
+                      "len_after": ["ok", 2]}
+            if v != want_v:
+                diff = {k: v.get(k) for k in want_v if v.get(k) != want_v[k]} if "error" not in v else v
+                out.append(("views-differ-after-flush", f"a process forked before the first round, used after flush() and one new store: "
+                            f"its view differs from the storage's content: {_short(diff)} (expected {_short({k: want_v[k] for k in diff})})"))
+            pv = fin["parent_view_after_late_user"]
+            want_p = {"len": ["ok", 2], "contiguous": ["ok", True], "iter": ["ok", [t2, t3]], "read1": ["ok", t3]}
+            if v == want_v and pv != want_p:
+                diff = {k: pv.get(k) for k in want_p if pv.get(k) != want_p[k]}
+                out.append(("views-differ-after-flush", f"after flush(), the parent's view after another (pre-forked) process stored id 1: "
+                            f"{_short(diff)} (expected {_short({k: want_p[k] for k in diff})})"))
         if any(x not in (0, None) for x in fin.get("exitcodes", [])):
             out.append(("child-crashed", f"writer/reader exit codes {fin.get('exitcodes')}"))
     d = pe.deadlock_finding(case, result)
